@@ -254,6 +254,8 @@ impl RelocatableContainer for RelocatableString {
 
         unsafe {
             self.data_ptr.init(ptr);
+            // the empty string is null terminated
+            self.data_ptr.as_mut_ptr().write(MaybeUninit::new(0));
         }
         Ok(())
     }
